@@ -24,6 +24,7 @@ func runC17(p *eng.Prog, r *eng.Report, tier string) {
 	split := map[string]bool{"styling.Decoder.scan": true, "styling.Decoder.scanSpan": true, "styling.Decoder.scanPre": true}
 	nret := 0
 	fenceWait := 0
+	runTok := 0
 	for _, name := range []string{"(*Decoder).scan", "(*Decoder).scanSpan", "(*Decoder).scanPre"} {
 		f := c.fn("C17.1", "styling", name)
 		if f == nil {
@@ -66,6 +67,27 @@ func runC17(p *eng.Prog, r *eng.Report, tier string) {
 			if form == "whole input" {
 				okd, why := g.DominatedAny(pt, []string{"p1"})
 				c.r.Check("C17.2", f, "whole-input return", "G: 'everything buffered so far' is emitted as one token only at end of input (otherwise token boundaries would depend on how the input is chunked)", rs.Pos(), okd, why)
+				// at end of input the buffer can still hold several lines (a
+				// reader may deliver data together with EOF): a function that
+				// finds lines by searching for the newline emits "everything"
+				// only when no newline is left
+				if len(f.Calls("bytes.IndexByte")) > 0 {
+					okn, whyn := g.DominatedAny(pt, []string{"lt(bytes.IndexByte(p0,10),0)", "eq(bytes.IndexByte(p0,10),-1)", "!lt(0,bytes.IndexByte(p0,10))", "!lt(-1,bytes.IndexByte(p0,10))"})
+					c.r.Check("C17.2", f, "whole-input return only without a newline", "G: at end of input the rest is one token only if it holds no newline (line tokens do not depend on whether EOF arrived together with the data)", rs.Pos(), okn, whyn)
+				}
+			}
+			if form == "prefix" {
+				// a token whose length comes from scanning a run (quote marker
+				// plus following white space) may be cut short by the end of
+				// the buffer: wait for more data unless the input ends here
+				for _, res := range rs.Results[:1] {
+					k := f.Norm(res, &pt)
+					if strings.Contains(k, "styling.startsBlockQuote(") {
+						okr, whyr := g.DominatedAny(pt, []string{"or(!eq(builtin.len(p0)," + k + ") | *", "!eq(builtin.len(p0)," + k + ")", "lt(" + k + ",builtin.len(p0))", "p1"})
+						c.r.Check("C17.2", f, "run-length token does not end at the end of the buffer", "G: a token whose extent was found by scanning a run is emitted only if the run ended before the end of the buffer or the input ends here", rs.Pos(), okr, whyr)
+						runTok++
+					}
+				}
 			}
 			if form == "need more data" {
 				if ok, _ := g.Dominated(pt, "bytes.HasPrefix(p0,var:styling.fence)"); ok {
@@ -82,8 +104,22 @@ func runC17(p *eng.Prog, r *eng.Report, tier string) {
 		}
 	}
 	c.r.Floor("C17.1", "returns of the split functions", nret, 16)
+	c.r.Floor("C17.2", "run-length (quote start) token returns", runTok, 1)
 	c.r.CheckNamed("C17.2", "styling.(*Decoder).scan", "incomplete fence line waits for more data", "a line that begins with the code fence but whose end has not arrived yet is not classified: scan asks for more data under HasPrefix(data, fence)", 0, fenceWait >= 1, "no need-more-data return under the fence-prefix test: an incomplete fence line is handed on as ordinary text")
 
+	// ---- C17.4b an open span has priority over block-level constructs -----------------
+	if sc := c.fn("C17.4", "styling", "(*Decoder).scan"); sc != nil {
+		nb := 0
+		for _, cl := range sc.AllCalls() {
+			cid := sc.CalleeID(cl)
+			isFence := cid == "bytes.HasPrefix" && len(cl.Args) == 2 && strings.HasSuffix(sc.Norm(cl.Args[1], nil), "styling.fence")
+			if cid == "styling.startsBlockQuote" || isFence {
+				nb++
+				c.dom("C17.4", sc, cl, "block construct "+cid+" only outside spans", []string{"!lt(0,builtin.len(recv.spanStack))"})
+			}
+		}
+		c.r.Floor("C17.4", "block-level detections in scan", nb, 2)
+	}
 	// ---- C17.3 mask pairing --------------------------------------------------------
 	pk := p.Pkg("styling")
 	bit := func(name string) int64 {
